@@ -1,2 +1,3 @@
 //! Reference models written from the text of RFC 9420; they share no code with mls-rs.
 pub mod tree;
+pub mod kdf;
